@@ -124,3 +124,6 @@ Definition tokens_of (input : bytes) : list rout := fst (fst (ref_tokens input))
 Definition leftover (input : bytes) : nat := snd (fst (ref_tokens input)).
 Definition need (input : bytes) : nat := snd (ref_tokens input).
 Definition fits (cap : nat) (input : bytes) : Prop := need input <= cap.
+
+(* schedules of the underlying Read without I/O failures *)
+Definition no_fail (sch : list event) : Prop := ~ In Fail sch.
